@@ -117,3 +117,61 @@ CHECKS["C08"] = {
           "and by kernel-evaluated instances; ASCII names where the term occurs; case-sensitive filesystem only; the composition "
           "theorem is for one search root, two disjoint roots are covered differentially.",
 }
+CHECKS["C12"] = {
+  "text": "Theorems over ALL schedules (induction over the schedule via an inductive invariant, any number N of processes): in the "
+          "Lean transition system of lock.rs (one transition = one system call of one process: exists, open, read, the "
+          "clock/kill(pid,0) decision, unlink, mkdir, open O_EXCL, write, work, Drop's exists+unlink, exit; inode identity, "
+          "seconds clock, pid liveness) at most one process owns the lock, an owner's file is never unlinked by another process, "
+          "a failed acquire never enters and the file is gone when nobody owns it - from 'no lock file' and from 'held by a live "
+          "scheduled process', while nobody is older than 300 s and either terminated processes linger or N <= 2. Each hypothesis "
+          "is shown necessary by a kernel-evaluated witness schedule (orphan/stale check-then-unlink race, 3-process exit race, "
+          "holder older than 300 s evicted, Drop removing a foreign lock, malformed file blocking for ever [also a theorem over all "
+          "schedules], future timestamp panic); the full statement C12_full is refuted. A generated table (call graph of "
+          "LockFile::acquire per CLI command, fingerprint of acquire/drop, timeout, decision chain) ties the model to the source: "
+          "plan/rename/test-lock lock, apply/undo/redo/replace do not. On every run: real LockFile::acquire in-process on an "
+          "exhaustive grid of injected lock files vs the model; every mutating CLI command under a held lock; release after "
+          "normal/error/SIGINT/SIGTERM exit; and model-enumerated interleavings of the system calls of 2-3 real renamify "
+          "processes driven by the LD_PRELOAD scheduler (quick: all 56 from absent + witnesses + samples; thorough: all "
+          "interleavings from each initial state), outcome / lock content / simultaneous holders compared with the model.",
+  "design_ref": "DESIGN.md section 4, C12",
+  "technique": "Lean 4 proof (inductive invariant of a transition system, all schedules, any N) + kernel-evaluated witness schedules "
+               "+ generated lock-user table + differential correspondence (in-process and scheduled real processes) + CLI oracle",
+  "note": TB + "POSIX semantics of stat/open/read/unlink/open(O_CREAT|O_EXCL)/write on a local file system, each call atomic; "
+          "kill(pid,0)==0 iff alive (no pid reuse, same user); one short write is atomic; wall clock monotone inside the "
+          "300 s window of the mutex theorems; Unicode white space other than ASCII in the lock file is not modelled; NFS, "
+          "Windows (OpenProcess) and signal delivery inside acquire are outside the model; the call-graph translator is "
+          "name-based (over-approximates 'reaches acquire').",
+ }
+CHECKS["C19"] = {
+  "text": "Finite decision table proved by kernel evaluation: for every command x {--output json, summary} x --quiet x --dry-run x -y x "
+          "--preview x scenario x failing site, the stdout emissions, the JSON shape of the emitted document, its membership in the "
+          "TypeScript type the wrappers declare, and the exit status; the table (per-handler emission sites with their guards, "
+          "format_json documents, serde shapes, exit-code mapping, bindings, wrapper expectations) is regenerated from the Rust and "
+          "TypeScript sources on every run. One theorem per clause under an explicit guard plus a witness theorem per known defect. "
+          "Every cell of a CLI grid (commands x scenario classes x error kinds x options x first-run) is run on the real binary and "
+          "judged independently (exactly one JSON value, validation against the parsed .d.ts, effect-based success), and compared "
+          "with the model's prediction for that row.",
+  "design_ref": "DESIGN.md section 4, C19",
+  "technique": "Lean 4 proof (finite table, decide +kernel) over generated tables + exhaustive CLI grid oracle + model/CLI correspondence",
+  "note": TB + "extraction is syntactic (mini Rust/TS parsers in translate/_rs.py, bindings.py, output_shapes.py): guard texts are mapped "
+          "to model atoms by a fixed dictionary and an unknown construct makes the translator fail; an operation returning Ok is "
+          "assumed to have had its effect (checked per grid cell from the tree/history); stdout is a pipe and stdin /dev/null in every "
+          "row (the prompt sites inside rename_operation are pinned by a theorem, not exercised); serde_json string escaping trusted.",
+}
+CHECKS["C01"] = {
+  "text": "Theorems for all patch texts, trees and plans in the explicit guard G01: rewriteHeaders changes exactly the two header "
+          "lines and preserves every body byte (any diff-like lines, CRLF, missing final newline); the undo rename sequence "
+          "returns every node of moveAll rs t to its original path for any nesting depth (built on C02ren.renamePhase_ok); under "
+          "the diff contract an edited file gets its original bytes and mode back; composed: undo(apply plan t) = t. Witnesses "
+          "show each guard clause is needed (unquoted header names, symlink-following exists() guard) and that the two repaired "
+          "algorithms (old header rewriting, deepest-first directory order) fail. The models of rewriteHeaders, diffy's "
+          "formatter/parser/apply, generate_reverse_patches and undo_renaming are run against the real apply_plan + undo_renaming "
+          "and real diffy output on every run; CLI rename/apply/replace -> undo (-> redo -> undo) is judged by exact snapshot "
+          "equality on diff-hostile trees.",
+  "design_ref": "DESIGN.md section 4, C01",
+  "technique": "Lean 4 proof (text-level induction over patch lines; path algebra via C02ren; composition) + differential correspondence (applyundo, mkpatch) + CLI snapshot-equality oracle",
+  "note": TB + "diffy's Myers diff is a parameter with the contract apply(create_patch(a,b),a)=b (exercised on every generated pair); "
+          "parse(rewriteHeaders(fmt p)) is proved on kernel-evaluated instances only and enters undo_apply_id as the clause "
+          "Contract.parses (compared with the real parser on real diffy output each run); the read-only-file finding is oracle-only "
+          "(permission checks are not in the tree model; needs setpriv/root, otherwise counted and skipped).",
+}
